@@ -529,6 +529,26 @@ def _exec_loop(plan, ctx, world, viol, bump, states_seen) -> int:
     bump("loop_epochs", max(0, hook.calls - 1))
     for t in hook.types:
         bump("loss_type_" + t)
+    # the history the loop actually supplied to the condition; normally the scripted one. If the loop supplies
+    # something else (the statement does not define the epoch loss), the reference automaton is fed with what
+    # was supplied, as in the real-model batch, and the fact is counted.
+    obs_train = [o[1] for o in hook.observed[1:]]
+    obs_val = [o[2] for o in hook.observed[1:]]
+
+    def _same(a, b):
+        return a == b or (a is not None and b is not None and math.isnan(a) and math.isnan(b))
+
+    script_ok = all(_same(t, train_ep[i]) for i, t in enumerate(obs_train)) and (
+        val_steps is None or all(_same(v, val_ep[i]) for i, v in enumerate(obs_val))
+    )
+    if not script_ok:
+        bump("loop_supplied_other_history_than_scripted")
+        if c["kind"] != "EpochStop" and obs_train:
+            mon = obs_train if c["kind"] == "TrainLoss" else obs_val
+            ext = list(mon) + [mon[-1]] * 8
+            dec_ref, best_ref, _states = ref_patience(ext, c["patience"], c["min_delta"] / 64.0)
+            ref_stop = dec_ref.index(True) + 1 if True in dec_ref else len(ext) + 1
+            ref_best = best_ref[min(ref_stop, len(best_ref)) - 1]
     # decisions, epoch by epoch, against the reference ("never earlier", and at the first such epoch)
     decisions_ok = True
     for (epoch, tl, vl, et), r in zip(hook.observed, hook.decisions):
@@ -536,17 +556,9 @@ def _exec_loop(plan, ctx, world, viol, bump, states_seen) -> int:
             want = (0 >= c["epochs"]) if c["kind"] == "EpochStop" else False
         else:
             want = dec_ref[epoch - 1]
-            # the history the loop observed must be the scripted one (harness self-check)
-            same = (tl == train_ep[epoch - 1]) or (math.isnan(tl) and math.isnan(train_ep[epoch - 1]))
-            if not same:
-                raise AssertionError(f"scripted loss mismatch at epoch {epoch}: loop saw {tl}, script {train_ep[epoch - 1]}")
-            if val_steps is not None:
-                samev = (vl == val_ep[epoch - 1]) or (math.isnan(vl) and math.isnan(val_ep[epoch - 1]))
-                if not samev:
-                    raise AssertionError(f"scripted val loss mismatch at epoch {epoch}: loop saw {vl}, script {val_ep[epoch - 1]}")
         if r != want:
             clause = "stops_early" if (r and not want) else "fails_to_stop"
-            viol(clause, {"epoch": epoch, "got": r, "want": want, "train": train_ep[:epoch], "val": val_ep[:epoch] if val_steps is not None else None}, site)
+            viol(clause, {"epoch": epoch, "got": r, "want": want, "train": obs_train[:epoch], "val": obs_val[:epoch] if val_steps is not None else None}, site)
             decisions_ok = False
             break
     if result is not None and decisions_ok:
